@@ -200,7 +200,7 @@ def worker(args):
 def run(chk):
     quick = chk.tier == 'quick'
     P = (chk.prop, chk.tier)
-    N = 3 if quick else 5
+    N = 3 if quick else 6
     cases = []
     for new_len in range(0, N + 1):
         cases.append(P + (None, new_len))
